@@ -35,6 +35,7 @@ type SiteRule struct {
 	Fired  int
 	Owner  string
 	Optional bool // a prohibition: the site need not exist
+	IsGlobal bool
 }
 
 type Contract struct {
@@ -82,6 +83,7 @@ type GuardDecl struct {
 type PropertyDecl struct {
 	ID    string
 	Units []string
+	Sweep bool
 }
 
 type SpecFile struct {
@@ -532,6 +534,18 @@ func (sf *SpecFile) ParseText(path, text string) error {
 				}
 			}
 			cur = nil
+		case "sweep":
+			// sweep C14 : the module-wide rules (global ...) tagged with the property are also checked in every other
+			// function of the module, including functions that did not exist when the contracts were written
+			for _, id := range strings.Fields(strings.ReplaceAll(rest, ",", " ")) {
+				pd := sf.Properties[id]
+				if pd == nil {
+					pd = &PropertyDecl{ID: id}
+					sf.Properties[id] = pd
+				}
+				pd.Sweep = true
+			}
+			cur = nil
 		case "specfn":
 			// specfn NumIn(U) Int
 			i := strings.Index(rest, "(")
@@ -685,6 +699,7 @@ func (sf *SpecFile) ParseText(path, text string) error {
 				return errf("%v", err)
 			}
 			r.Optional = word == "global-forbid"
+			r.IsGlobal = true
 			sf.Globals = append(sf.Globals, r)
 		default:
 			if cur == nil {
